@@ -175,6 +175,14 @@ def differential(rep, tier, seed):
                           'structural history hangs with parallel processes: %s from %s'
                           % (json.dumps(ops), json.dumps(ini)), {'initial': ini, 'ops': ops})
             continue
+        except Exception as e:
+            # (run_history records what update() raises; this is the constructor)
+            rep.violation({'kind': 'differential-structural', 'what': 'raised',
+                           'type': type(e).__name__},
+                          'building the engine of a structural history raised %r when its '
+                          'processes and steps are parallel (or serial): initial %s'
+                          % (e, json.dumps(ini)), {'initial': ini, 'ops': ops})
+            continue
         a = [(r.get('exc'), {k: r['obs'][k] for k in keys}) for r in ser if 'obs' in r]
         b = [(r.get('exc'), {k: r['obs'][k] for k in keys}) for r in par if 'obs' in r]
         if a != b:
